@@ -27,20 +27,20 @@ var decoderScope = []string{
 // Reviewed constructs that can only panic if an invariant established elsewhere is broken; keyed by
 // function name + expression (never by line).
 var reviewedRisks = map[string]string{
-	"getUsernameIfIPRestricted|VerifiedChains[0]":                         "called by checkAuth only under len(r.TLS.VerifiedChains) > 0 (checked: R-C10-4 caller guard)",
-	"getUsernameIfIPRestricted|VerifiedChains[0][0]":                      "a verified chain always contains the leaf certificate (crypto/tls contract)",
-	"getUsernameIfKeymasterSigned|VerifiedChains[(φrangeindex + 1)][0]":   "guarded by len(chain) < 2 => continue (range element re-indexed)",
-	"getUsernameIfKeymasterSigned|VerifiedChains[(φrangeindex + 1)][1]":   "guarded by len(chain) < 2 => continue (range element re-indexed)",
-	"parseRefreshRoleCertGenParams|r.TLS.VerifiedChains[0][0]":            "a verified chain always contains the leaf certificate (crypto/tls contract)",
-	"sealEncodeData|nonce[:iface:(crypto/cipher.AEAD).NonceSize()]":       "nonce is the server-generated 43-character token id (genRandomString), longer than the 12-byte GCM nonce",
-	"decodeOpenData|nonce[:iface:(crypto/cipher.AEAD).NonceSize()]":       "nonce is the jti of a code whose signature was verified; the server only signs 43-character ids",
-	"changePrintableStringToGeneralString|inString[16]":                   "operates on the server's own asn1.Marshal output of a fixed-shape structure, not on input",
-	"changePrintableStringToGeneralString|inString[(((16 + 1) + builtin:len(kerberosRealm)) + 14)]": "operates on the server's own asn1.Marshal output of a fixed-shape structure, not on input",
-	"genSANExtension|lib/certgen.changePrintableStringToGeneralString(*kerberosRealm, encoding/asn1.Marshal(*complit)#0)[0]": "server's own marshalled structure (non-empty)",
-	"encodeIpAddressChoice|t10[φi]":                                       "loop bound i < outlen == len(output) (make([]byte, outlen))",
-	"encodeIpAddressChoice|netBlock.IP[(φincrement + φi)]":                "encoder for operator-supplied netblocks: len(IP) is 4 or 16 and increment+outlen <= len(IP) for a 32-bit mask",
-	"roleCommonName|roleArn.Resource[5:]":                                 "callers verified HasPrefix(Resource, \"role/\") (makeCertificateTemplate) before calling",
-	"getSignerX509CAForPublic|state.caCertDer[(builtin:len(state.caCertDer) - 1)]": "caCertDer is non-empty once unsealed (loader appends before storing the signer; C09)",
+	"getUsernameIfIPRestricted|VerifiedChains[0]":                                                                                    "called by checkAuth only under len(r.TLS.VerifiedChains) > 0 (checked: R-C10-4 caller guard)",
+	"getUsernameIfIPRestricted|VerifiedChains[0][0]":                                                                                 "a verified chain always contains the leaf certificate (crypto/tls contract)",
+	"getUsernameIfKeymasterSigned|VerifiedChains[(φrangeindex + 1)][0]":                                                              "guarded by len(chain) < 2 => continue (range element re-indexed)",
+	"getUsernameIfKeymasterSigned|VerifiedChains[(φrangeindex + 1)][1]":                                                              "guarded by len(chain) < 2 => continue (range element re-indexed)",
+	"parseRefreshRoleCertGenParams|r.TLS.VerifiedChains[0][0]":                                                                       "a verified chain always contains the leaf certificate (crypto/tls contract)",
+	"sealEncodeData|nonce[:iface:(crypto/cipher.AEAD).NonceSize()]":                                                                  "nonce is the server-generated 43-character token id (genRandomString), longer than the 12-byte GCM nonce",
+	"decodeOpenData|nonce[:iface:(crypto/cipher.AEAD).NonceSize()]":                                                                  "nonce is the jti of a code whose signature was verified; the server only signs 43-character ids",
+	"changePrintableStringToGeneralString|inString[16]":                                                                              "operates on the server's own asn1.Marshal output of a fixed-shape structure, not on input",
+	"changePrintableStringToGeneralString|inString[(((16 + 1) + builtin:len(kerberosRealm)) + 14)]":                                  "operates on the server's own asn1.Marshal output of a fixed-shape structure, not on input",
+	"genSANExtension|lib/certgen.changePrintableStringToGeneralString(*kerberosRealm, encoding/asn1.Marshal(*complit)#0)[0]":         "server's own marshalled structure (non-empty)",
+	"encodeIpAddressChoice|t10[φi]":                                                                                                  "loop bound i < outlen == len(output) (make([]byte, outlen))",
+	"encodeIpAddressChoice|netBlock.IP[(φincrement + φi)]":                                                                           "encoder for operator-supplied netblocks: len(IP) is 4 or 16 and increment+outlen <= len(IP) for a 32-bit mask",
+	"roleCommonName|roleArn.Resource[5:]":                                                                                            "callers verified HasPrefix(Resource, \"role/\") (makeCertificateTemplate) before calling",
+	"getSignerX509CAForPublic|state.caCertDer[(builtin:len(state.caCertDer) - 1)]":                                                   "caCertDer is non-empty once unsealed (loader appends before storing the signer; C09)",
 	"idpOpenIDCUserinfoHandler|(*cmd/keymasterd.RuntimeState).getUserAttributes(state, t104.Username, slicelit[:])#0[\"mail\"]#0[0]": "directory attribute lists returned by the LDAP library are non-empty when present",
 }
 
